@@ -268,7 +268,11 @@ static Cls cls_hermite() {
            sx_d(a->getMean()) + " " + sx_d(a->getVariance()) + " " + sx_d(a->getRCoef()) + " " + sx_vdd(a->_psiHn) + " " + sx_b(a->getFlagBound()) + ")"; };
   c.X = [](const ASerializable* o) { auto a = dynamic_cast<const AnamHermite*>(o);
     std::string s = "(" + sx_vdd(a->getPsiHns()) + " (";
-    if (a->getNbPoly() > 0) for (double y : { -1.5, 0., 0.7, 2.5 }) s += " " + sx_d(a->transformToRawValue(y));
+    // probes of the transform: it is discontinuous at the four gaussian bounds (which the fit puts on round values and the
+    // file rounds to 15 digits): a probe that sits on a bound is moved a little inside
+    if (a->getNbPoly() > 0) for (double y : { -1.4837, 0.0173, 0.7219, 2.4631 }) {
+      for (double b : { a->getAymin(), a->getAymax(), a->getPymin(), a->getPymax() }) if (!FFFF(b) && std::abs(y - b) < 1e-6) y += 3.7e-4;
+      s += " " + sx_d(a->transformToRawValue(y)); }
     return s + "))"; };
   return c;
 }
@@ -318,9 +322,14 @@ static void bulk_locators(Db* db, const Sx& cols, int shift) {
     if (t >= 0) db->setLocatorByUID((int) k + shift, ELoc::fromValue(t), (int) cols[k][2].i());
   }
 }
+// history of a Db: k provisional columns added before the real ones and deleted afterwards (the UIDs of the columns are
+// then different from their ranks), or two columns added at the end and the first of them deleted
+static void hist_before(Db* db, int k) { for (int i = 0; i < k; i++) db->addColumnsByConstant(1, 9.25 + i, "tmp_hist_" + std::to_string(i)); }
+static void hist_after(Db* db, int k) { for (int i = 0; i < k; i++) db->deleteColumn("tmp_hist_" + std::to_string(i)); }
+static void hist_tail(Db* db) { db->addColumnsByConstant(1, 3.5, "hist_a"); db->addColumnsByConstant(1, 4.5, "hist_b"); db->deleteColumn("hist_a"); }
 static Cls cls_db() {
   Cls c;
-  // recipe: (nech addRank cols [bulk])
+  // recipe: (nech addRank cols [bulk] [history])
   c.build = [](const Sx& r) -> ASerializable* {
     int nech = (int) r[0].i();
     if (r.size() > 3 && r[3].b()) {
@@ -330,7 +339,8 @@ static Cls cls_db() {
       return db;
     }
     Db* db = Db::createFromSamples(nech, ELoadBy::COLUMN, VectorDouble(), VectorString(), VectorString(), r[1].b());
-    add_cols(db, r[2]);
+    int k = r.size() > 4 ? (int) r[4].i() : 0;      // optional 5th element: provisional columns in the history
+    hist_before(db, k); add_cols(db, r[2]); hist_after(db, k);
     return db; };
   c.load = [](const std::string& f) -> ASerializable* { return Db::createFromNF(f, false); };
   c.G = [](const ASerializable* o) { return g_db(dynamic_cast<const Db*>(o)); };
@@ -348,7 +358,8 @@ static Cls cls_dbgrid() {
       return g;
     }
     DbGrid* g = DbGrid::create(VI(r[0]), VD(r[1]), VD(r[2]), VD(r[3]), ELoadBy::COLUMN, VectorDouble(), VectorString(), VectorString(), r[4].b(), r[5].b());
-    if (g != nullptr) add_cols(g, r[6]);
+    int k = r.size() > 8 ? (int) r[8].i() : 0;      // optional 9th element: provisional columns in the history
+    if (g != nullptr) { hist_before(g, k); add_cols(g, r[6]); hist_after(g, k); }
     return g; };
   c.load = [](const std::string& f) -> ASerializable* { return DbGrid::createFromNF(f, false); };
   c.G = [](const ASerializable* o) { auto g = dynamic_cast<const DbGrid*>(o);
@@ -504,14 +515,16 @@ template <class T> static Cls generic(std::function<ASerializable*(const Sx&)> b
   return c;
 }
 static void more_classes(std::map<int, Cls>& m) {
-  // 20 DbLine: (ndim nbline nperline seed)
-  m[20] = generic<DbLine>([](const Sx& r) -> ASerializable* { return DbLine::createFillRandom((int) r[0].i(), (int) r[1].i(), (int) r[2].i(), 5., VectorDouble(), 0.3, (int) r[3].i()); },
+  // 20 DbLine: (ndim nbline nperline seed [history])
+  m[20] = generic<DbLine>([](const Sx& r) -> ASerializable* { DbLine* d = DbLine::createFillRandom((int) r[0].i(), (int) r[1].i(), (int) r[2].i(), 5., VectorDouble(), 0.3, (int) r[3].i());
+      if (d != nullptr && r.size() > 4 && r[4].b()) hist_tail(d); return d; },
                           [](const std::string& f) -> ASerializable* { return DbLine::createFromNF(f, false); });
-  // 21 DbGraphO: (nech x1 x2 z arcs((i j v)...))
+  // 21 DbGraphO: (nech x1 x2 z arcs((i j v)...) [history])
   m[21] = generic<DbGraphO>([](const Sx& r) -> ASerializable* {
       VectorDouble tab = VD(r[1]); for (double v : VD(r[2])) tab.push_back(v); for (double v : VD(r[3])) tab.push_back(v);
       NF_Triplet arcs; for (auto& a : r[4].l) arcs.add((int) a[0].i(), (int) a[1].i(), a[2].d());
-      return DbGraphO::createFromSamples((int) r[0].i(), ELoadBy::COLUMN, tab, arcs, {"x1", "x2", "z1"}, {"x1", "x2", "z1"}); },
+      DbGraphO* g = DbGraphO::createFromSamples((int) r[0].i(), ELoadBy::COLUMN, tab, arcs, {"x1", "x2", "z1"}, {"x1", "x2", "z1"});
+      if (g != nullptr && r.size() > 5 && r[5].b()) hist_tail(g); return g; },
                             [](const std::string& f) -> ASerializable* { return DbGraphO::createFromNF(f, false); });
   // 22 AnamEmpirical: (ndisc sigma2e dilution gaussian data)   -- modelled: G = state, X = printed text
   m[22] = generic<AnamEmpirical>([](const Sx& r) -> ASerializable* {
@@ -744,6 +757,33 @@ static std::string run(const Sx& c) {
     }
     o << ")";
     delete g; delete h;
+  } else if (kind == 6) {
+    // a sequence in ONE process: (6 (class recipe) (class recipe) ...): every object is built, then every object is written
+    // (a<k>.nf, in the order of the list), then every file is reloaded -> ((okdump file okload G0 X0 G1 X1) ...)
+    std::vector<ASerializable*> objs; std::vector<Cls*> ks;
+    mark("build");
+    for (size_t i = 1; i < c.size(); i++) {
+      auto it = classes().find((int) c[i][0].i()); if (it == classes().end()) return "(-996 0)";
+      ks.push_back(&it->second); objs.push_back(it->second.build(c[i][1]));
+      if (objs.back() == nullptr) return "(-995 0)";
+    }
+    std::vector<std::string> G0, X0; std::vector<bool> okd;
+    mark("getters");
+    for (size_t i = 0; i < objs.size(); i++) { G0.push_back(ks[i]->G(objs[i])); X0.push_back(ks[i]->X(objs[i])); }
+    mark("dump");
+    for (size_t i = 0; i < objs.size(); i++) { std::string f = path(("a" + std::to_string(i) + ".nf").c_str()); std::remove(f.c_str()); okd.push_back(objs[i]->dumpToNF(f, false)); }
+    mark("reload");
+    o << "(";
+    for (size_t i = 0; i < objs.size(); i++) {
+      std::string f = path(("a" + std::to_string(i) + ".nf").c_str());
+      ASerializable* B = ks[i]->load(f);
+      o << (i ? " " : "") << "(" << sx_b(okd[i]) << " " << sx_s(slurp(f)) << " " << sx_b(B != nullptr) << " " << G0[i] << " " << X0[i] << " "
+        << (B ? ks[i]->G(B) : std::string("()")) << " " << (B ? ks[i]->X(B) : std::string("()")) << ")";
+      delete B;
+    }
+    o << ")";
+    mark("done");
+    for (auto p : objs) delete p;
   } else if (kind == 5) {
     // which covariance types have a range / a third parameter: ((type hasRange hasParam) ...)
     // (a type that cannot be created in a Euclidean context of dimension 1, 2 or 3 is left out)
